@@ -223,6 +223,10 @@ class PEP8Normalizer(ErrorFinder):
         if typ in _IMPORT_TYPES:
             simple_stmt = node.parent
             module = simple_stmt.parent
+            if module is None:
+                # An import at the end of the file without a newline is not
+                # wrapped in a simple_stmt.
+                simple_stmt, module = node, simple_stmt
             if module.type == 'file_input':
                 index = module.children.index(simple_stmt)
                 for child in module.children[:index]:
